@@ -91,6 +91,12 @@ def histories(draw):
             cut = d.int(1, len(lines) - 2)
             texts = ['\n'.join(lines[:cut]) + '\n', '\n'.join(lines[cut:])]
         w = d.choice([32, 64, 64]) if use_stl else (gen_prog['w'] if name == 'generated' else d.choice([16, 32, 64]))
+        if steps and d.pct() < 15:
+            # the same sources at the same path again, with other options (a user re-running with --werror, another width...)
+            prev = d.choice(steps)
+            steps.append(dict(prev, werror=not prev['werror'] if d.pct() < 70 else prev['werror'],
+                              version=d.int(0, 3), w=prev['w'] if d.pct() < 70 or not prev['use_stl'] else d.choice([32, 64])))
+            continue
         steps.append({'name': name, 'texts': texts, 'w': w, 'werror': d.pct() < 35, 'version': d.int(0, 3),
                       'depth': d.choice([None, None, 900, 50, 12]), 'use_stl': use_stl,
                       'dir_tag': d.choice(['x', 'y', 'deep/er/dir', 'a b', 'x']), 'debug': True})
@@ -140,8 +146,23 @@ def run_case(case):
     failed_before = 0
     stl_keys = []
     nontrivial = False
+    import shutil
+    import tempfile
+    hist_base = tempfile.mkdtemp(prefix='c13hist.', dir=os.environ.get(env.ENV_SNAPSHOT))
+    try:
+        return _run_history(case, hist_base)
+    finally:
+        shutil.rmtree(hist_base, ignore_errors=True)
+
+
+def _run_history(case, hist_base):
+    cl = []
+    failed_before = 0
+    stl_keys = []
+    nontrivial = False
     for i, step in enumerate(case['steps']):
-        got = asm_worker.do_request(step)
+        # all steps of a history that name the same dir_tag assemble the SAME paths (sources rewritten in place)
+        got = asm_worker.do_request(step, fixed_base=hist_base)
         want = fresh(step)
         cl.append('step:' + step['name'])
         key = (step['w'], step['werror']) if step['use_stl'] else None
